@@ -60,7 +60,14 @@ def b_bytes_nibbles(src, n):
 
 
 def h_nibbles_bytes(nibs):
-    return tuple(bytes_to_nibbles(nibbles_to_bytes(nibs))) == tuple(nibs)
+    """nibbles_to_bytes is injective on what it accepts: whatever it returns converts back to the same nibbles (so an
+    odd-length sequence can only be refused)"""
+    from trie.exceptions import InvalidNibbles
+    try:
+        b = nibbles_to_bytes(nibs)
+    except InvalidNibbles:
+        return len(nibs) % 2 == 1
+    return tuple(bytes_to_nibbles(b)) == tuple(nibs)
 
 
 def b_nibbles_bytes(src, n):
